@@ -175,10 +175,20 @@ def run_case(case, ctx):
         mutating = op in MUT
         res = None
         if op == "insert":
+            # 13-16 distinct new nodes for the long requests (one call): valid as a whole, or spoilt by one node placed in
+            # the middle / at the end
+            long_ = []
+            for i_ in range(1, 40):
+                cand = umin + span * num(F(i_, 41))
+                if all(abs(cand - kk) >= span / 1000 for kk in ks):
+                    long_.append(cand)
+                if len(long_) == 13 + r[3] % 4:
+                    break
             if bad:
-                arg = [[umin, umax], [umax + 1], [umin], ["a"], [newnode] * (p + 2), [newnode, umin - span]][r[1] % 6]
+                arg = [[umin, umax], [umax + 1], [umin], ["a"], [newnode] * (p + 2), [newnode, umin - span],
+                       long_ + [umax + 1], long_[:9] + [umin - span] + long_[9:], long_ + [long_[-1]] * (p + 1)][r[1] % 9]
             else:
-                arg = [[newnode], [newnode] * (1 + r[1] % (p + 1))][r[2] % 2]
+                arg = [[newnode], [newnode] * (1 + r[1] % (p + 1)), [newnode], long_][r[2] % 4]
             o = call(t.knot_insert, arg)
         elif op == "remove":
             if bad or len(ks) <= 2:
